@@ -5,6 +5,6 @@ cd /verif
 git -C /repo apply /verif/$d/patch.diff || { echo "patch does not apply"; exit 2; }
 for p in "$@"; do
   echo "== $p on $(basename $d)"
-  ./check $p --tier quick 2>/dev/null | tail -4
+  ./check $p --tier quick --no-build 2>/dev/null | tail -4
 done
 git -C /repo checkout -- .
